@@ -307,9 +307,11 @@ def crash_run(pre, k, variant):
         if pre:
             new_client(server).request_profile()
         state["newest"] = (new, 2002)
+        rfd, wfd = os.pipe()
         pid = os.fork()
         if pid == 0:
             code = 3
+            os.close(rfd)
             try:
                 n = [0]
 
@@ -331,12 +333,20 @@ def crash_run(pre, k, variant):
                 with faultfs.Intercept(env.tmp, hook):
                     new_client(server).request_profile()
                 code = 0 if n[0] < k else 5
-            except BaseException:
+            except BaseException as e:
                 code = 4
+                try:
+                    os.write(wfd, repr(e)[:300].encode("utf_8", "replace"))
+                except Exception:
+                    pass
             finally:
                 os._exit(code)
+        os.close(wfd)
         _, status = os.waitpid(pid, 0)
         out["child"] = os.waitstatus_to_exitcode(status)
+        if out["child"] == 4:
+            out["child_error"] = os.read(rfd, 400).decode("utf_8", "replace")
+        os.close(rfd)
         if out["child"] != 77:
             return out
         files = profrs_files(env.tmp)
@@ -550,7 +560,12 @@ def _crash_worker(job):
     while k < 200:
         res = crash_run(pre, k, variant)
         if res.get("child") != 77:
-            if res.get("child") not in (0, 5):
+            if res.get("child") == 4:
+                # no fault was injected before the k-th I/O event, the server is well behaved - and the request raised
+                case = {"kind": "crash", "pre": pre, "k": k, "variant": variant}
+                s.case(case, nontrivial=True, labels=["request without fault raised"])
+                s.fail("request-to-well-behaved-server-raised" + ("/cache-present" if pre else "/first-request"), case, res.get("child_error", ""))
+            elif res.get("child") not in (0, 5):
                 raise H.HarnessError(f"crash child exit {res.get('child')}")
             break
         case = {"kind": "crash", "pre": pre, "k": k, "variant": variant}
